@@ -232,7 +232,9 @@ def stream_sql_and_e2e(ck, model_ok, tm=None):
                 case = {"stream": "sqltext", "dialect": dialect, "src": srcs[k], "model": mt, "impl": got[0], "statement": got[1]}
                 ck.disagreement("SQL text differs for %r (%s): model %r, implementation %r" % (srcs[k], dialect, mt, got[0]), case, classify_text)
         # --- execution
-        todo = [k for k in range(len(cases)) if comp[k][0] not in ("ERR", None)]
+        # date/time literals have no value in the model (and sql.generic spells them DATE '..', which SQLite does not read):
+        # they feed the text / RQ correspondences only
+        todo = [k for k in range(len(cases)) if comp[k][0] not in ("ERR", None) and "@" not in srcs[k]]
         sqls = ["SELECT %s FROM t" % comp[k][0] for k in todo]
         # pack several expressions per statement; on failure run them one by one
         results = {}
